@@ -139,6 +139,11 @@ func genStaged(r *kit.Rand) scase {
 		c.stages = append(c.stages, [2]int64{d, r.Range(0, maxT)})
 	}
 	t0 := base + r.Range(0, 1_000_000_000)
+	if r.Chance(25) {
+		// a profile planned ahead: its start time is still in the (real) future when it is queried
+		// on synthetic timestamps; the profile is a function of the query times, not of the wall clock
+		t0 = time.Now().UnixNano() + r.Range(3_600, 100_000_000)*1_000_000_000
+	}
 	if r.Chance(40) {
 		s := t0
 		c.start = &s
